@@ -437,6 +437,22 @@ theorem rxWss_keeps (s : State) (b0 b1 t : Nat) :
   repeat' split
   all_goals simp [Ev.isNetwork, Ev.isNetworkId]
 
+/-- a CPR-1204 word touches the aspect record and its source only -/
+theorem rxCpr_keeps (s : State) (b0 : Nat) :
+    (rxCpr s b0).1.net = s.net ∧ (rxCpr s b0).1.cached = s.cached ∧ (rxCpr s b0).1.chswcd = s.chswcd ∧
+    (rxCpr s b0).1.mask = s.mask ∧ (rxCpr s b0).1.time = s.time ∧
+    ∀ e ∈ (rxCpr s b0).2, e.isNetwork = false ∧ e.isNetworkId = false := by
+  simp only [rxCpr]
+  repeat' split
+  all_goals simp [Ev.isNetwork, Ev.isNetworkId]
+
+theorem rxCpr_rest (s : State) (b0 : Nat) :
+    (rxCpr s b0).1.deb = s.deb ∧ (rxCpr s b0).1.vpsPid = s.vpsPid ∧ (rxCpr s b0).1.wssLast = s.wssLast ∧
+    (rxCpr s b0).1.wssRep = s.wssRep ∧ (rxCpr s b0).1.wssTime = s.wssTime := by
+  simp only [rxCpr]
+  repeat' split
+  all_goals simp
+
 /-- a regular tick with no countdown running only advances the clock -/
 theorem prologue_regular (s : State) (t : Nat) (hcd : s.chswcd = 0)
     (hreg : s.time = 0 ∨ (s.time + 25000 ≤ t ∧ t ≤ s.time + 50000)) :
